@@ -109,8 +109,9 @@ PROPS = {
                           'arguments are proved to be the point just evaluated, its first / i-th / mean residual and its point number; the returned tuple is '
                           'followed through solve_main and the hard-restart merge of solve into the OptimResults fields.',
             'level_note': LEDGER_NOTE + ' ' + MODEL_NOTE + ' The equality soln.x == evaluated x is in real arithmetic (as the property says: up to rounding of the '
-                          'base-point arithmetic); with projections it additionally uses numeric assumption N4 (Dykstra re-applied to its own output returns it).',
-            'not_decided': ['init.run_in_parallel=True (known finding D6/D23)']},
+                          'base-point arithmetic). With projections the main loop stores the pre-projection step, so the absolute point is recomputed by the identical Dykstra call; the two initialisers '
+                          'store the projected point minus the base, which is projected again when read back: refuted, known finding D24 (the former assumption N4 was false).',
+            'not_decided': ['init.run_in_parallel=True (known finding D6/D23)', 'initial points under projections (known finding D24)']},
     'C04': {'bundles': ['ledger', 'model'], 'level': 'proof',
             'level_text': 'Callers (no floats): a ghost flag "an evaluated point has not been offered to the model yet" is proved false at every loop back-edge, '
                           'break and return of solve_main and of eight Controller methods (except the deliberate NaN exit). Model: change_point / add_new_point / '
